@@ -55,6 +55,8 @@ pub const DROP_DRAIN: u32 = 16;
 pub const POLL_ARM: u32 = 17;
 /// Polling driver: descriptor b is removed from the poller.
 pub const POLL_DISARM: u32 = 18;
+/// Polling driver: the poller delivered an event whose key is operation a.
+pub const POLL_EVENT: u32 = 19;
 /// `AwakeFlag::set`.
 pub const AWAKE_SET: u32 = 20;
 /// `AwakeFlag::reset` (b = prior value).
